@@ -11,6 +11,29 @@ CLAIMED = {
         design="7/C20, 6.1"),
 }
 
+API_NOTE = "Trusted: Coq kernel; extraction + driver; harness. The theorems are over ANY search function satisfying SearchOK (match at or after the start offset, inside the text, start <= end, on character boundaries); that the compiled search satisfies SearchOK is C05's invariant and is validated by the correspondence check, not proved here. Known finding F-keepout-lb (\\K inside a look-behind breaks SearchOK) is reported as KNOWN-FINDING."
+
+CLAIMED.update({
+    "C07": dict(
+        text="Machine-checked (Coq, closed): for EVERY VM program, text, offset and amount of fuel, a run with backtrack limit L returns BacktrackLimitExceeded or exactly the unlimited run (result and statistics), returns the unlimited answer whenever that run needs at most L backtracks, reports the limit only if it needs more, and the branch stack never exceeds max_stack (C07_limit_prefix/enough/fires_only_if, C07_stack_bound). Tie: the model VM must reproduce the real vm::run result AND its exact instruction/backtrack/peak-depth counts (run-stats hook) for limits {0,1,2,3,5,10,100,10^6}; the property is also evaluated on the real code at the exact threshold read through the hook.",
+        note="Partial: the bound on the number of VM steps in terms of limit, pattern and text is NOT proved (only the limit/answer relation and the stack bound are theorems); 'no limit error on tiny explorations' is validated on the generated space. Trusted: Coq kernel, extraction, harness + stats hook, regex-automata oracle inside Delegate.",
+        technique="Coq lock-step induction over the interpreter loop (all programs) + differential correspondence of exact run statistics",
+        design="7/C07"),
+    "C08": dict(
+        text="Machine-checked (Coq, closed) over any SearchOK search: every sequence find_iter yields, for any number of next() calls, has strictly increasing starts, never overlaps, never starts before the previous end, consists of valid spans, has at most |text|+2 items (termination, incl. the iterator's self-recursion never running out of fuel), and nothing follows an Err item (C08_sorted, C08_terminates, C08_step, C08_fused_after_err). Ties: the API model must reproduce the real find_iter (and every other API call) under backtrack limits -,0,1,2,3,5, and the real find_iter is compared with the reference iteration over the reference semantics Sem.",
+        note=API_NOTE, technique="Coq induction over iterator calls (abstract search with SearchOK) + differential correspondence + reference iteration over extracted Sem", design="7/C08"),
+    "C09": dict(
+        text="Machine-checked (Coq, closed): the separately written CaptureMatches::next is the same function as Matches::next, so captures_iter yields exactly what find_iter yields (C09_next_agree, C09_iters_agree); get(0) is the find span (C09_get0). is_match/find/captures are one search call in the model. Tie + property evaluated on the real crate: all seven entry points, every boundary offset, limits -,0..5.",
+        note="Trusted as for C08. For RegexImpl::Wrap the three regex-automata entry points (is_match, search, captures) are one function in the model (oracle assumption, exercised on every run).",
+        technique="Coq equality proof of the two iterator models + differential correspondence", design="7/C09"),
+    "C10": dict(
+        text="Machine-checked (Coq, closed) over any SearchOK search: the iterator's complete match sequence exists; split yields exactly the pieces between consecutive matches for every prefix of next() calls (C10_split_pieces), one more piece than matches (C10_count), interleaving rebuilds the text (C10_rebuild), no slice can panic (C10_split_safe), and splitn k is nothing for 0 and otherwise the first k-1 pieces plus the untouched remainder, again for every prefix of calls (C10_splitn).",
+        note=API_NOTE, technique="Coq induction over the match sequence / iterator calls + differential correspondence", design="7/C10"),
+    "C11": dict(
+        text="Machine-checked (Coq, closed) over any SearchOK search: try_replacen equals the documented splice of the complete match sequence (Borrowed iff no match; first n matches replaced, all if n = 0; every other byte unchanged; an Err item met is returned as Err) (C11_replacen), the captures_iter path and the find_iter path compute the same function (C11_paths_agree), and no slice can panic (C11_no_panic). Tie: replacers {template with/without $, NoExpand, constant closure, identity closure} x limits 0..3 x backtrack limits.",
+        note=API_NOTE, technique="Coq induction over the replace loop + differential correspondence", design="7/C11"),
+})
+
 PENDING_REASON = "check not built yet in this revision (see DESIGN.md section 12 build order); not claimed until its theorem and correspondence check exist"
 
 
